@@ -204,6 +204,31 @@ End chain.
 
 (** ** executing one learner call to completion *)
 Global Arguments shim_check : simpl never.
+
+(** [shim_check] since /repo 7d16f07, in terms of the first header *)
+Lemma drop_below_ge c h r : h_height c <= h_height h -> drop_below c (h :: r) = h :: r.
+Proof. intros H. cbn. destruct (N.ltb_spec (h_height h) (h_height c)); [lia|reflexivity]. Qed.
+
+Lemma shim_check_hd c h0 r :
+  shim_check c (h0 :: r) =
+  if h_height c <=? h_height h0
+  then match shim_walk c (h0 :: r) with Some nh => ShimOk nh | None => ShimNonAdj end
+  else match drop_below c r with
+       | [] => ShimSkip
+       | rest => match shim_walk c rest with Some nh => ShimOk nh | None => ShimNonAdj end
+       end.
+Proof.
+  unfold shim_check. destruct (N.leb_spec (h_height c) (h_height h0)) as [H|H].
+  - rewrite (drop_below_ge _ _ _ H). reflexivity.
+  - cbn [drop_below]. destruct (N.ltb_spec (h_height h0) (h_height c)); [reflexivity|lia].
+Qed.
+
+Lemma shim_check_1 c x :
+  shim_check c [x] =
+  if h_height c <=? h_height x
+  then match shim_walk c [x] with Some nh => ShimOk nh | None => ShimNonAdj end
+  else ShimSkip.
+Proof. rewrite shim_check_hd. reflexivity. Qed.
 Global Arguments rs_append : simpl never.
 Global Arguments ranges_add : simpl never.
 Global Arguments ranges_first : simpl never.
@@ -311,7 +336,7 @@ Ltac adv Hi :=
 
 Lemma shim_one_ok ca x nh : shim_check ca [x] = ShimOk nh -> h_height nh = h_height x.
 Proof.
-  unfold shim_check. destruct (_ <=? _); [|discriminate]. cbn [shim_walk].
+  rewrite shim_check_1. destruct (_ <=? _); [|discriminate]. cbn [shim_walk].
   destruct ((h_height x =? h_height ca) && (h_id x =? h_id ca)) eqn:E.
   - intros [= <-]. apply Bool.andb_true_iff in E. destruct E as [E _]. apply N.eqb_eq in E. symmetry. exact E.
   - destruct (h_height x =? wrap64 (h_height ca + 1)); [|discriminate]. intros [= <-]. reflexivity.
@@ -325,7 +350,7 @@ Proof.
   intros H. assert (Hi : (i < length (c_thr c))%nat) by (apply nth_error_Some; congruence).
   unfold slh.
   destruct (shim_check (c_cache c) [x]) eqn:Hs.
-  - unfold shim_check in Hs. destruct (h_height (c_cache c) <=? h_height x); [destruct (shim_walk (c_cache c) [x])|]; discriminate.
+  - rewrite shim_check_1 in Hs. destruct (h_height (c_cache c) <=? h_height x); [destruct (shim_walk (c_cache c) [x])|]; discriminate.
   - (* skip *)
     destruct (h_height x <=? h_height (c_cache (c <| c_store ::= rs_append [x] |>))) eqn:Hle.
     + exists 3%nat. split; [lia|].
@@ -762,7 +787,7 @@ Lemma shim_single ca x :
   else if (h_height x =? h_height ca) && (h_id x =? h_id ca) then ShimOk ca
   else if h_height x =? h_height ca + 1 then ShimOk x else ShimNonAdj.
 Proof.
-  intros Hk. unfold shim_check, shim_walk. rewrite (wrap_succ _ Hk).
+  intros Hk. rewrite shim_check_1. unfold shim_walk. rewrite (wrap_succ _ Hk).
   destruct (N.leb_spec (h_height ca) (h_height x)), (N.ltb_spec (h_height x) (h_height ca)); try lia; [|reflexivity].
   destruct ((h_height x =? h_height ca) && (h_id x =? h_id ca)); [reflexivity|].
   destruct (h_height x =? h_height ca + 1); reflexivity.
@@ -1100,7 +1125,7 @@ Lemma shim_check_run c a l d :
   consec (a :: l) -> (forall y, In y (a :: l) -> hok y) -> h_height a = h_height c + 1 ->
   shim_check c (a :: l) = ShimOk (last (a :: l) d).
 Proof.
-  intros Hc Hk Ha. unfold shim_check.
+  intros Hc Hk Ha. rewrite shim_check_hd.
   destruct (N.leb_spec (h_height c) (h_height a)); [|lia].
   rewrite (shim_walk_consec c a l d Hc Hk Ha). reflexivity.
 Qed.
